@@ -443,6 +443,11 @@ class LTExpandableContainer(LTContainer[LTItemT]):
     # super() LTContainer only considers LTItem (no bounding box).
     def add(self, obj: LTComponent) -> None:  # type: ignore[override]
         LTContainer.add(self, cast(LTItemT, obj))
+        if (self.x0, self.y0, self.x1, self.y1) == (+INF, +INF, -INF, -INF):
+            # the first member: INF is a sentinel, not a bound, and
+            # coordinates beyond it must not be clipped to it
+            self.set_bbox((obj.x0, obj.y0, obj.x1, obj.y1))
+            return
         self.set_bbox(
             (
                 min(self.x0, obj.x0),
